@@ -4,21 +4,21 @@ from vf.runner import Inst
 
 PROPERTY = 'C34'
 LEVEL = 'model_checking'
-BOUNDS = {'quick': dict(types='SecInt(10), data values in [-4,4)', mean='n in {1,2,4}', median='median, median_low, median_high n<=2', quantiles='quartiles of 3 points, both methods',
+BOUNDS = {'quick': dict(types='SecInt(10), data values in [-4,4)', mean='n in {1,2,4}', median='median, median_low, median_high n<=2', quantiles='quartiles of 2 and 3 points, both methods (2 points: extrapolated cut points of the exclusive method)',
                         mode='n<=2, SecInt(4), values in [0,4)', variance='variance n=2, pvariance n=2, stdev/pstdev through _isqrt', restarts='pivot / rejection loops: one restart'),
           'thorough': dict(mean='n in {1,2,3,4,8}', median='n<=4', quantiles='2..4 points', mode='n<=4', variance='as quick plus n=3 through the secure division')}
 OUTSIDE = ['secure fixed-point statistics (Newton/truncation pipelines: _fsqrt, fixed-point variance)', 'covariance, correlation, linear_regression',
            'divisors n^2(n-1) that are not powers of two (secure floor division by 18, 48, ...: C01 covers the division protocol for divisors <= 5)',
            'data sizes beyond the bound', 'ties in quickselect beyond what the bound exercises (information leakage of ties is documented upstream)']
-ASSUMPTIONS = ['secure comparison exact (C01), unit_vector exact (C30) -- used through their contracts in the symbolic run; replays run the real protocols', 'random_bits ideal (C33)']
+ASSUMPTIONS = ['quick tier, quartiles of 2 points only: Runtime.mod(a, 4) by its contract (C01) in the symbolic run', 'secure comparison exact (C01), unit_vector exact (C30) -- used through their contracts in the symbolic run; replays run the real protocols', 'random_bits ideal (C33)']
 LEVEL_TEXT = ('Bounded symbolic model checking of the real statistics functions on symbolic integer data: results are compared with the definition of the statistic in exact integer '
               'arithmetic (order statistics through counting, nearest-integer rounding |n*result - sum| <= n/2, r^2 <= v < (r+1)^2 for square roots, mode = first most frequent value).')
 LEVEL_NOTE = 'Trusted: z3, shadow-int engine, contracts of comparison/unit_vector in the symbolic run.'
 
 
-def _setup(env, cap=8):
+def _setup(env, cap=8, ideal_mod=False):
     from vf import l2, kit
-    k = l2.L2(env, ideal_cmp=True, ideal_zero_test=True, rb_cap=cap, fork_mod=1 << 4, public_reciprocal=True)
+    k = l2.L2(env, ideal_cmp=True, ideal_zero_test=True, rb_cap=cap, fork_mod=1 << 4, public_reciprocal=True, ideal_mod=ideal_mod)
     mpc = k.mpc
     if env.mode == 'sym':
         def unit_vector(a, n):
@@ -47,7 +47,7 @@ def _kth(env, vs, kk, y):
 def h_stat(env):
     P = env.params
     what, n = P['what'], P['n']
-    k, mpc, stats = _setup(env, cap=P.get('cap', 8))
+    k, mpc, stats = _setup(env, cap=P.get('cap', 8), ideal_mod=P.get('ideal_mod', False))
     env.encoded(stats.mean, stats._med, stats._quickselect, stats.quantiles, stats._mode, stats._var, stats._std, stats._isqrt)
     st, vs, xs = _data(env, k, mpc, n, *(P.get('range') or (-4, 4)), l=P.get('l', 10))
     sv = k.sval
@@ -148,9 +148,13 @@ def instances(tier):
     for n in ((1, 2) if q else (1, 2, 3)):
         for what in ('median_low', 'median_high', 'median'):
             out.append(Inst(f'{what}[n={n}]', h_stat, dict(what=what, n=n, cap=10), **T))
-    for n in ((3,) if q else (3, 4)):
+    for n in ((2, 3) if q else (2, 3, 4)):
         for method in ('exclusive', 'inclusive'):
-            out.append(Inst(f'quantiles[{method},n={n}]', h_stat, dict(what='quantiles', n=n, method=method, cap=12), **T))
+            # two points: three reductions mod 4 in one call (8 mask paths each): the quick tier uses the contract of Runtime.mod in the
+            # symbolic run (replays run the real protocol), the thorough tier explores the real reductions
+            im = n == 2 and q
+            out.append(Inst(f'quantiles[{method},n={n}]' + ('[mod by contract]' if im else ''), h_stat,
+                            dict(what='quantiles', n=n, method=method, cap=12, ideal_mod=im), **T))
     for n in ((1, 2) if q else (1, 2, 3)):
         out.append(Inst(f'mode[n={n}]', h_stat, dict(what='mode', n=n, range=(0, 4), l=4), **T))
     out.append(Inst('variance[n=2]', h_stat, dict(what='variance', n=2), **T))
